@@ -284,7 +284,40 @@ func runC19(res *lp.Result) {
 			res.Add(lp.Finding{Kind: "disagreement", What: "model/implementation differ on: " + lines[i], Input: lines[i], Impl: expect[i], Model: a, Detail: descr[i]})
 		}
 	}
+	c19VersionedChecks(res)
 	c19CallerModifiesLists(res)
+}
+
+// c19VersionedChecks: the Check helpers that take a version accept exactly the values that are declared AND that the version's
+// capability predicate allows — all 256 versions × declared and undeclared values
+func c19VersionedChecks(res *lp.Result) {
+	for v := 0; v < 256; v++ {
+		pv := primitive.ProtocolVersion(v)
+		for _, t := range []primitive.SchemaChangeTarget{"KEYSPACE", "TABLE", "TYPE", "FUNCTION", "AGGREGATE", "", "keyspace", "VIEW"} {
+			want := t.IsValid() && pv.SupportsSchemaChangeTarget(t)
+			res.Count("versioned-checks")
+			if got := primitive.CheckValidSchemaChangeTarget(t, pv) == nil; got != want {
+				res.Add(lp.Finding{Kind: "violation", What: fmt.Sprintf("CheckValidSchemaChangeTarget(%q, version %d) accepts=%v; declared=%v, capability for that version=%v", string(t), v, got, t.IsValid(), pv.SupportsSchemaChangeTarget(t)),
+					Input: fmt.Sprintf("check SchemaChangeTarget %q version %d", string(t), v)})
+			}
+		}
+		for _, t := range []primitive.TopologyChangeType{"NEW_NODE", "REMOVED_NODE", "MOVED_NODE", "", "new_node", "DOWN"} {
+			want := t.IsValid() && pv.SupportsTopologyChangeType(t)
+			res.Count("versioned-checks")
+			if got := primitive.CheckValidTopologyChangeType(t, pv) == nil; got != want {
+				res.Add(lp.Finding{Kind: "violation", What: fmt.Sprintf("CheckValidTopologyChangeType(%q, version %d) accepts=%v; declared=%v, capability for that version=%v", string(t), v, got, t.IsValid(), pv.SupportsTopologyChangeType(t)),
+					Input: fmt.Sprintf("check TopologyChangeType %q version %d", string(t), v)})
+			}
+		}
+		for _, t := range []primitive.DseRevisionType{0, 1, 2, 3, 99, 0xffffffff} {
+			want := t.IsValid() && pv.SupportsDseRevisionType(t)
+			res.Count("versioned-checks")
+			if got := primitive.CheckValidDseRevisionType(t, pv) == nil; got != want {
+				res.Add(lp.Finding{Kind: "violation", What: fmt.Sprintf("CheckValidDseRevisionType(%d, version %d) accepts=%v; declared=%v, capability for that version=%v", uint32(t), v, got, t.IsValid(), pv.SupportsDseRevisionType(t)),
+					Input: fmt.Sprintf("check DseRevisionType %d version %d", uint32(t), v)})
+			}
+		}
+	}
 }
 
 // c19CallerModifiesLists: the version checks must answer by the declared constants whatever callers did before — in
